@@ -178,6 +178,34 @@ func (t *listTarget) keyPool(g *gen.G, n int) []poolKey {
 			}
 		}
 	}
+	if t.allStringKeys() >= 2 && g.R.Intn(2) == 0 {
+		// two different key tuples that read the same once their parts are joined by a space
+		// ("x y","a") and ("x","y a"): whatever identifies a member by a printed form of its key
+		// confuses them
+		saveS := g.Strs
+		g.Strs = []string{"x y", "a", "x", "y a"}
+		want := map[string]bool{"x y|a": true, "x|y a": true}
+		for try := 0; try < 400 && len(want) > 0; try++ {
+			e, k, ok := g.NewEntry(t.ElemType, t.KeyType, t.ListSch, 0)
+			if !ok {
+				continue
+			}
+			ks := model.MapKeyStrings(k, names)
+			var parts []string
+			for _, nm := range names {
+				parts = append(parts, ks[nm])
+			}
+			id := parts[0] + "|" + strings.Join(parts[1:], " ")
+			if !want[id] {
+				continue
+			}
+			delete(want, id)
+			s := model.FormatKeys(ks)
+			seen[s] = true
+			out = append(out, poolKey{Key: k, Proto: e, Str: s})
+		}
+		g.Strs = saveS
+	}
 	for try := 0; try < 40 && len(out) < n; try++ {
 		e, k, ok := g.NewEntry(t.ElemType, t.KeyType, t.ListSch, 0)
 		if !ok {
@@ -191,6 +219,20 @@ func (t *listTarget) keyPool(g *gen.G, n int) []poolKey {
 		out = append(out, poolKey{Key: k, Proto: e, Str: s})
 	}
 	return out
+}
+
+// allStringKeys returns the number of key leaves when the key is a key struct made of
+// strings only, 0 otherwise.
+func (t *listTarget) allStringKeys() int {
+	if t.KeyType.Kind() != reflect.Struct {
+		return 0
+	}
+	for i := 0; i < t.KeyType.NumField(); i++ {
+		if t.KeyType.Field(i).Type.Kind() != reflect.String {
+			return 0
+		}
+	}
+	return t.KeyType.NumField()
 }
 
 // keyArgs splits a Go map key into the argument list of the generated helpers
